@@ -22,7 +22,7 @@ CHECKS = {
    text="Seeded exploration of the relative order of child exit, SIGCHLD delivery (any eligible thread), handler execution and waitpid for 1..4 (quick) / 1..16 (thorough) concurrent managers running commands that exit 0, exit k, die by a signal or fail to exec; execute()'s outcome is compared to the planned fate for every command, plus reaping/descriptor conservation, deadlock and memory-error detection.",
    note="Trusted: the simulated kernel (fork/waitpid/pipe/signal semantics modelled on Linux); the child side of createProcess is a state machine, not executed code. Uninitialised automatic variables are made deterministic with -ftrivial-auto-var-init in two adversarial flavours.",
    design="§3 C30"),
- "C52": dict(ready=False, level="exploration", engine="vsim-static",
+ "C52": dict(ready=True, level="exploration", engine="vsim-static",
    technique="deterministic simulation: real tfel-check sources (TFELCheck::execute, TestLauncher, PCLogger, ThreadPool, ProcessManager) under the seeded scheduler and simulated process table; verdict/log-block oracle against a sequential reference",
    text="Seeded schedule exploration of the real tfel-check driver code on generated sets of .check files, -j 1..16: exit status must equal the plan-derived verdict and tfel-check.log must contain each check's block exactly once and uninterleaved.",
    note="Trusted: simulated kernel as for C30; child commands are simulated fates, not real programs.",
@@ -90,9 +90,9 @@ def main():
         "setup_cmd": "bin/setup",
         "hooks": {
             "guard": "TFEL_VERIF",
-            "enable": "no source hook is needed: all seams are symbol interposition (pthread_*, sem_*), link-time --wrap of process syscalls, LD_PRELOAD on real binaries, template/functor parameters and /verif-owned .mfront behaviours",
+            "enable": "checks C29, C30 and C52 compile the anchored sources of /repo with -DTFEL_VERIF (add-only annotation TFEL_VERIF_SHARED_ACCESS feeding the simulator's happens-before race check); every other seam is symbol interposition (pthread_*, sem_*), link-time --wrap of process syscalls, LD_PRELOAD on real binaries, template/functor parameters and /verif-owned .mfront behaviours",
             "baseline_off_cmd": "ctest --test-dir /repo/_build -j8 --timeout 900",
-            "source_commits": [],
+            "source_commits": ["7681c8188"],
             "add_only": True,
         },
         "engines": [
